@@ -223,11 +223,74 @@ def proxy_containment_pass(ctx):
         shutil.rmtree(tmp, ignore_errors=True)
 
 
+def negative_insert_pass(ctx):
+    """a child inserted at a position counted from the end (`insert(-k, c)`, in range and beyond), then each sibling in turn
+    leaves — removed, discarded, popped by position, given to another container, deleted: after every step every child is
+    listed by exactly the container it names, and by nobody else (unique and list-like containment references)"""
+    from pyecore import ecore as E
+    leaves = ['remove', 'discard', 'pop', 'move', 'delete', 'setitem']
+    for unique in (True, False):
+        for n in range(1, 5):
+            for k in range(1, n + 3):
+                for leave in leaves:
+                    for victim in range(n + 1):
+                        A = E.EClass('A')
+                        A.eStructuralFeatures.extend([E.EAttribute('name', E.EString),
+                                                      E.EReference('kids', A, upper=-1, containment=True, unique=unique)])
+                        p, q = A(name='p'), A(name='q')
+                        kids = [A(name=f'c{i}') for i in range(n)]
+                        p.kids.extend(kids)
+                        new = A(name='new')
+                        expect = list(kids)
+                        expect.insert(-k, new)
+                        try:
+                            p.kids.insert(-k, new)
+                            v = expect[victim]
+                            if leave == 'remove':
+                                p.kids.remove(v)
+                            elif leave == 'discard':
+                                p.kids.discard(v) if hasattr(p.kids, 'discard') else p.kids.remove(v)
+                            elif leave == 'pop':
+                                p.kids.pop(victim)
+                            elif leave == 'move':
+                                q.kids.append(v)
+                            elif leave == 'delete':
+                                v.delete()
+                            else:
+                                repl = A(name='repl')
+                                p.kids[victim] = repl
+                                expect[victim] = repl
+                                expect.append(v)            # (kept in the list below only to be looked at)
+                        except Exception as e:
+                            ctx.count(f'negative-insert/raised/{leave}/{type(e).__name__}')
+                            continue
+                        ctx.evaluations += 1
+                        ctx.count(f'negative-insert/{"unique" if unique else "list"}/{leave}')
+                        ctx.nontriv(('negative-insert', unique, n, k, leave, victim))
+                        problems = []
+                        for o in expect:
+                            holders = [h.name for h in (p, q) for x in h.kids if x is o]
+                            c = o.eContainer()
+                            said = [c.name] if c is not None else []
+                            if holders != said:
+                                problems.append(f'{o.name} is listed by {holders or "nobody"} and names {said or "no container"}')
+                            for h in (p, q):
+                                if (o in h.kids) != any(x is o for x in h.kids):
+                                    problems.append(f'`{o.name} in {h.name}.kids` contradicts iteration')
+                        if problems:
+                            ctx.violate({'clause': 'multi-owner', 'history': 'negative-insert'},
+                                        f'{"unique" if unique else "list-like"} containment with {n} children, insert(-{k}, new), then '
+                                        f'child {victim} leaves by {leave}: ' + '; '.join(problems[:3]),
+                                        {'negative_insert': [unique, n, k, leave, victim]})
+                            return
+
+
 def run(ctx):
     storecheck.run(ctx, CHECKS)
     equal_owner_pass(ctx)
     resource_extend_pass(ctx)
     proxy_containment_pass(ctx)
+    negative_insert_pass(ctx)
 
 
 def search(ctx):
